@@ -85,6 +85,10 @@ var sessFamilies = map[string]SessFamily{
 	"genwhole":  {"genwhole", "MC_GenWhole", []string{"C18", "C03", "C02"}},
 	"genconfig": {"genconfig", "MC_GenConfig", []string{"C16"}},
 	"gendet":    {"gendet", "MC_GenDet", []string{"C14"}},
+	"gensort":   {"gensort", "MC_GenSort", []string{"C15"}},
+	"gensep":    {"gensep", "MC_GenSep", []string{"C13"}},
+	"genaddr":   {"genaddr", "MC_GenAddr", []string{"C11"}},
+	"genexcl":   {"genexcl", "MC_GenExcl", []string{"C11", "C05"}},
 }
 
 type vector struct {
@@ -399,6 +403,13 @@ func runSessionFamily(env *pipeline.Env, fam SessFamily, tier string, seed int64
 		var gchecks, pair interface{}
 		json.Unmarshal(s.GChecks, &gchecks)
 		json.Unmarshal(s.Pair, &pair)
+		if pm, ok := pair.(map[string]interface{}); ok && pm["key"] != "" {
+			// behaviours are paired one to one: same pair key + same steps
+			var steps interface{}
+			json.Unmarshal(mustJSON(v.Steps), &steps)
+			h := sha256.Sum256(mustJSON(steps))
+			pm["key"] = fmt.Sprint(pm["key"], "/", hex.EncodeToString(h[:8]))
+		}
 		unit := v.Shape
 		if s.Group != "" {
 			unit = "group:" + s.Group
@@ -411,6 +422,32 @@ func runSessionFamily(env *pipeline.Env, fam SessFamily, tier string, seed int64
 		}
 		behs = append(behs, b)
 	}
+	// paired behaviours: a base behaviour is written immediately before its variants (same pair key = same
+	// steps), so that the trace validator has to remember one base at a time
+	pairKey := func(b behaviour) string {
+		if pm, ok := b.Meta["pair"].(map[string]interface{}); ok {
+			if k, _ := pm["key"].(string); k != "" {
+				return k
+			}
+		}
+		return ""
+	}
+	pairRole := func(b behaviour) int {
+		if pm, ok := b.Meta["pair"].(map[string]interface{}); ok && pm["role"] == "base" {
+			return 0
+		}
+		return 1
+	}
+	sort.SliceStable(behs, func(i, j int) bool {
+		ui, uj := behs[i].Meta["shape"].(string), behs[j].Meta["shape"].(string)
+		if pairKey(behs[i]) == "" || pairKey(behs[j]) == "" || ui != uj {
+			return false
+		}
+		if pairKey(behs[i]) != pairKey(behs[j]) {
+			return pairKey(behs[i]) < pairKey(behs[j])
+		}
+		return pairRole(behs[i]) < pairRole(behs[j])
+	})
 	rep.Behaviours = len(behs)
 	rep.Shapes = len(used)
 	// generate + compile every used shape with the real generator
